@@ -1,7 +1,16 @@
 import Oracle.Proto
-/-! Oracle suites of property C20 (registered in Oracle/Main.lean through `suites`). -/
+import Oracle.AStar
+import Oracle.Geometry
+/-! Oracle suites of property C20. -/
 namespace Oracle.C20
 
-def suites : List (String × Suite) := []
+def suites : List (String × Suite) := [
+  ("astar", Oracle.AStar.model),
+  ("astar-spec", Oracle.AStar.spec),
+  ("astar-judge", Oracle.AStar.judge),
+  ("geo", Oracle.Geometry.model),
+  ("geo-spec", Oracle.Geometry.spec),
+  ("geonum-judge", Oracle.Geometry.judge)
+]
 
 end Oracle.C20
